@@ -148,6 +148,7 @@ func vfC20Run(t *testing.T, msgs []vfC20Msg, choose func(n int) int) (lit string
 		var acts []string
 		var sched []string
 		var accepts []string
+		noted := map[int]bool{}
 		next := 0
 		for {
 			st.settle(t)
@@ -215,8 +216,15 @@ func vfC20Run(t *testing.T, msgs []vfC20Msg, choose func(n int) int) (lit string
 			}
 			noteAccept := func() {
 				mu.Lock()
-				if r, ok := results[tid]; ok && r == ValidationAccept && len(msgs[tid].Seq) >= 8 {
-					accepts = append(accepts, fmt.Sprintf("(%d, %d%%N)", msgs[tid].Author, binary.BigEndian.Uint64(msgs[tid].Seq)))
+				if r, ok := results[tid]; ok && r == ValidationAccept {
+					// an accepted message counts with the number its bytes stand for: an absent field is 0, and so is an encoding too
+					// short to decode (neither can exceed any stored value, so neither is ever acceptable)
+					var v uint64
+					if len(msgs[tid].Seq) >= 8 {
+						v = binary.BigEndian.Uint64(msgs[tid].Seq)
+					}
+					accepts = append(accepts, fmt.Sprintf("(%d, %d%%N)", msgs[tid].Author, v))
+					noted[tid] = true
 				}
 				mu.Unlock()
 			}
@@ -271,6 +279,14 @@ func vfC20Run(t *testing.T, msgs []vfC20Msg, choose func(n int) int) (lit string
 			v := "Ignore"
 			if results[i] == ValidationAccept {
 				v = "Accept"
+				if !noted[i] {
+					// accepted without ever going through the store (no scheduling point was seen): counted all the same
+					var x uint64
+					if len(msgs[i].Seq) >= 8 {
+						x = binary.BigEndian.Uint64(msgs[i].Seq)
+					}
+					accepts = append(accepts, fmt.Sprintf("(%d, %d%%N)", msgs[i].Author, x))
+				}
 			}
 			resl = append(resl, fmt.Sprintf("(%d, %s)", i, v))
 			resj[fmt.Sprint(i)] = v
